@@ -24,7 +24,7 @@ LEVEL_TEXT = ('Lean 4 theorems over a line-by-line model of ifthenelse.evaluate 
 LEVEL_NOTE = ('Trusted: Lean kernel (axioms propext, Classical.choice, Quot.sound only), the translator harness/extract.py (probes ifthenelse.prec), '
               'the correspondence harness and its generators (depth<=6), CPython. Modelled not verified: expansion of the test argument, atom macros, float tolerance of \\lengthtest.')
 TECHNIQUE = 'Lean 4 proof (mutual structural induction on expression trees) + regenerated precedence table + differential correspondence'
-TRUSTED = ['tex.readNumber digit-run conversion and atom macros (\\equal, \\isodd, \\boolean, \\isundefined, \\lengthtest) are tied by the doc stream only']
+TRUSTED = ['atom macros (\\equal, \\isodd, \\boolean, \\isundefined, \\lengthtest) are tied by the doc stream only; the operand reader (signs, blanks, digits) is modelled (readSigned, theorem signed_operand_value) and tied by the num stream']
 ASSUMPTIONS = ['\\lengthtest equality uses a float tolerance in the code; generated lengths keep a margin',
                'expression depth sampled up to 6 (theorem covers every depth)']
 RULE = ('trees of the Spec grammar generated recursively from the seed (depth<=6 component level, <=4 document level) plus '
@@ -62,6 +62,24 @@ GENERATED = [gen_ifthen]
 
 # ---------------------------------------------------------------- generation
 
+def spell_int(rng, v):
+    """a TeX <number> denoting v: optional +/- signs, each possibly followed by blanks (written `_`), then the digits"""
+    if rng.random() < 0.6:
+        return str(v)
+    signs = [rng.choice('+-') for _ in range(rng.randint(0, 3))]
+    if (signs.count('-') % 2 == 1) != (v < 0):
+        signs.insert(rng.randint(0, len(signs)), '-')
+    if v == 0 and rng.random() < 0.5:
+        signs = [rng.choice('+-') for _ in range(rng.randint(0, 2))]
+    return ''.join(c + '_' * (rng.randint(1, 2) if rng.random() < 0.25 else 0) for c in signs) + str(abs(v))
+
+
+def opval(w):
+    """value of an operand word"""
+    core = w.lstrip('+-_')
+    return (-1) ** w[:len(w) - len(core)].count('-') * int(core)
+
+
 def gen_atom(rng, depth):
     r = rng.random()
     if depth <= 0 or r < 0.25:
@@ -70,7 +88,7 @@ def gen_atom(rng, depth):
         a, b = rng.randint(-3, 12), rng.randint(-3, 12)
         if rng.random() < 0.2:
             b = a
-        return ['C', str(a), rng.choice('<>='), str(b)]
+        return ['C', spell_int(rng, a), rng.choice('<>='), spell_int(rng, b)]
     if r < 0.55:
         return ['N'] + gen_atom(rng, depth - 1)
     if r < 0.85:
@@ -99,6 +117,10 @@ def generate(ctx):
     for i in range(n // 2):
         k = rng.randint(0, 8)
         yield Case('rpn', ' '.join(rng.choice(TOKS) for _ in range(k)), {'kind': 'tokens'})
+    for w in ['3', '+3', '-3', '--3', '+-3', '-+-3', '-_3', '+_3', '-_-__3', '-0', '+_0', '007', '-_012']:
+        yield Case('num', w, {'kind': 'num'})
+    for i in range(n // 5):
+        yield Case('num', spell_int(rng, rng.choice([rng.randint(-20, 20), rng.randint(-100000, 100000)])), {'kind': 'num'})
     for a in range(0, 4):
         for b in range(0, 7):
             yield Case('while', '%d %d 50' % (a, b), {'kind': 'while'})
@@ -117,6 +139,8 @@ def corpus():
         Case('rpn', 'T and not F', {'kind': 'tokens'}, 'corpus'),
         Case('rpn', ')', {'kind': 'tokens'}, 'corpus'),
         Case('rpn', 'n1 and n2', {'kind': 'tokens'}, 'corpus'),
+        Case('num', '-_3', {'kind': 'num'}, 'corpus'),                           # D54: blank between the sign and the digits
+        Case('tree', 'A C -_3 < +_2', {'kind': 'tokens'}, 'corpus'),
     ]
 
 
@@ -139,16 +163,22 @@ def _tex():
     return _env['doc'], _env['tex'], _env['it'], _env['mod']
 
 
-def real_tokens(words, rng_upper=None):
+def real_tokens(words, spelled=None):
+    """`spelled`: the operand words of the request in left-to-right order (the model prints operand values; the real
+    evaluator gets them as they were spelled)"""
     from plasTeX.Tokenizer import Other, Space
     doc, tex, it, m = _tex()
     out, prev_num = [], False
+    spelled = list(spelled or [])
     for w in words:
         isnum = w.startswith('n') and w not in ('not',)
         if isnum:
             if prev_num:
                 out.append(Space())
-            out.extend(Other(c) for c in w[1:])
+            sp = spelled.pop(0) if spelled else w[1:]
+            if spelled is not None and opval(sp) != int(w[1:]):
+                raise ValueError('operand order mismatch %s vs %s' % (sp, w))
+            out.extend(Space() if c == '_' else Other(c) for c in sp)
         elif w == 'T': out.append(m._true())
         elif w == 'F': out.append(m._false())
         elif w == 'and': out.append(m._and())
@@ -173,18 +203,22 @@ def atom_tex(words, i, rng):
         t = (w == 'L1')
         k = rng.randrange(5)
         if k == 0: s = '\\equal{ab}{ab}' if t else '\\equal{ab}{ba}'
-        elif k == 1: s = '\\isodd{%d}' % (2 * rng.randint(0, 9) + (1 if t else 0))
+        elif k == 1: s = '\\isodd{%s%d}' % (rng.choice(['', '', '+', '-', '--', '+ ']), 2 * rng.randint(0, 9) + (1 if t else 0))
         elif k == 2: s = '\\boolean{flagT}' if t else '\\boolean{flagF}'
         elif k == 3: s = '\\isundefined{\\nosuchmacroxyz}' if t else '\\isundefined{\\relax}'
-        else: s = '\\lengthtest{1cm<2cm}' if t else '\\lengthtest{3pt>1in}'
+        else: s = rng.choice(['\\lengthtest{1cm<2cm}', '\\lengthtest{1cm<+2cm}', '\\lengthtest{-1cm<2mm}', '\\lengthtest{+5mm<1cm}']) if t else rng.choice(['\\lengthtest{3pt>1in}', '\\lengthtest{+3pt>1in}', '\\lengthtest{3pt<-1in}'])
         return s, i + 1
     if w == 'C':
         a, r, b = words[i + 1:i + 4]
-        k = rng.randrange(4)
-        if k == 0 and int(a) >= 0: a = '\\value{cnt%s}' % a if 0 <= int(a) <= 12 else a
-        elif k == 1: a = '\\numA' if a == '5' else a
+        def core(w):
+            c = w.lstrip('+-_')
+            pre = w[:len(w) - len(c)].replace('_', ' ')
+            k = rng.randrange(4)
+            if k == 0 and int(c) <= 12: c = '\\value{cnt%s}' % int(c)
+            elif k == 1 and c == '5': c = '\\numA'
+            return pre + c
         sp = ' ' if rng.random() < 0.5 else ''
-        return '%s%s%s%s%s' % (a, sp, r, sp, b), i + 4
+        return '%s%s%s%s%s' % (core(a), sp, r, sp, core(b) if rng.random() < 0.5 else b.replace('_', ' ')), i + 4
     if w == 'N':
         s, j = atom_tex(words, i + 1, rng)
         return '\\not ' + s, j
@@ -224,17 +258,43 @@ def impl(case, aux):
     if kind == 'tokens':
         words = aux[0].split() if case.stream == 'tree' else case.line.split()
         doc, tex, it, m = _tex()
+        spelled = None
+        if case.stream == 'tree':
+            lw = case.line.split()
+            spelled = [x for i, x in enumerate(lw) if (i >= 1 and lw[i - 1] == 'C') or (i >= 3 and lw[i - 3] == 'C')]
+        toks = real_tokens(words, spelled)
         try:
-            r = it.evaluate(tex, real_tokens(words))
+            r = it.evaluate(tex, toks)
             return 'ok:true' if r.state else 'ok:false'
         except Exception as e:
             return canon_exc(e)
+    if kind == 'num':
+        # the value `evaluate` reads for the operand spelled by the word, observed at its call of readInternalType
+        from plasTeX.Tokenizer import Other, Space
+        doc, tex, it, m = _tex()
+        seen = []
+        orig = tex.readInternalType
+        def spy(toks, fn):
+            v = orig(toks, fn)
+            seen.append(int(v))
+            return v
+        tex.readInternalType = spy
+        try:
+            it.evaluate(tex, [Space() if c == '_' else Other(c) for c in case.line.strip()] + [Other('<'), Other('1')])
+        except Exception as e:
+            return canon_exc(e)
+        finally:
+            del tex.readInternalType
+        return 'ok:%d' % seen[0] if len(seen) == 2 else 'split:' + ','.join(map(str, seen))
     if kind == 'doc':
         rng = random.Random(case.meta['seed'])
         s, _ = expr_tex(case.line.split(), 0, rng)
         case.meta['tex'] = s
         try:
-            txt = parse_doc('\\ifthenelse{%s}{BRANCHT}{BRANCHF}' % s)
+            # re-declaring an existing boolean with \\provideboolean leaves its value alone
+            pre = rng.choice(['', '', '\\provideboolean{flagT}', '\\provideboolean{flagF}\\provideboolean{flagT}', '\\provideboolean{flagNew}'])
+            case.meta['tex'] = pre + '\\ifthenelse{%s}' % s
+            txt = parse_doc(pre + '\\ifthenelse{%s}{BRANCHT}{BRANCHF}' % s)
         except Exception as e:
             return canon_exc(e)
         t, f = txt.count('BRANCHT'), txt.count('BRANCHF')
@@ -251,7 +311,8 @@ def impl(case, aux):
         try:
             # the body may itself use \\ifthenelse / a nested \\whiledo (they toggle the same math-disabling switch)
             body = rng.choice(['\\stepcounter{w}X', '\\stepcounter{w}\\ifthenelse{\\isodd{\\value{w}} \\or \\( 1<2 \\)}{X}{Y}',
-                               '\\stepcounter{w}X\\setcounter{v}{0}\\whiledo{\\( \\value{v}<2 \\)}{\\stepcounter{v}}'])
+                               '\\stepcounter{w}X\\setcounter{v}{0}\\whiledo{\\( \\value{v}<2 \\)}{\\stepcounter{v}}',
+                               '\\stepcounter{w}X\\provideboolean{flagT}\\provideboolean{flagF}'])
             txt = parse_doc('\\newcounter{w}\\newcounter{v}\\setcounter{w}{%d}\\whiledo{%s}{%s}DONE' % (a, test, body))
         except Exception as e:
             return canon_exc(e)
